@@ -332,6 +332,8 @@ def search(res, tier, boost=False):
     for ctor, cls in (('gauss_sqrtinv_quadrature_scheme', 'w=1/sqrt'), ('gauss_x_quadrature_scheme', 'w=x'),
                       ('gauss_log_quadrature_scheme', 'w=-log'), ('gauss_quadrature_scheme', 'w=1')):
         for N_poly in range(0, 2 * hi):
+            if ctor == 'gauss_quadrature_scheme' and N_poly > 41:
+                continue      # numpy's leggauss, not a table of the repository; beyond 41 its own accuracy is ~1e-13
             try:
                 sch = getattr(Q, ctor)(N_poly)
             except Exception:
